@@ -87,10 +87,10 @@ def session(work, idx, proj, keys):
 
 def run(ctx):
     th = ctx.thorough
-    # the model: every reachable state of the bounded sessions satisfies the user-level statements; two variants rejected
+    # the model: every reachable state of the bounded sessions satisfies the user-level statements; three variants rejected
     r = vlib.model_check(ctx, "mc/MC_Interactive.tla", "mc/MC_Interactive_thorough.cfg" if th else "mc/MC_Interactive_quick.cfg",
                          workers=6, timeout=3000, heap="8g", keep_vec=False)
-    for name, inv in (("alone", "P1"), ("closed", "P3")):
+    for name, inv in (("alone", "P1"), ("closed", "P3"), ("lastonly", "P1")):
         w = vlib.run_tlc(ctx, "mc/MC_Interactive.tla", "mc/MC_Interactive_witness_%s.cfg" % name, workers=2, timeout=600, keep_vec=False)
         if w.violated != inv:
             raise vlib.ToolError("MC_Interactive_witness_%s no longer violates %s - the model lost its teeth" % (name, inv))
